@@ -57,8 +57,12 @@ Section EnterDead.
       destruct (decide (o ∈ L)) as [Hin|Hout].
       + unfold m'. rewrite (inD_enter_in _ _ _ Hin). change (st_dropping (enter L m)) with true.
         destruct (HM o Hin) as (y & Hy & Hb & Hv & Hi & Hmk). assert (y = x) by congruence. subst y.
-        destruct HX as [X1 X2 X3 X4 X5 X6]. split; auto.
-        * intros _ Hd. unfold dying in Hd. rewrite Hv in Hd. discriminate.
+        destruct HX as [X1 X2 X3 X4 X5 X6]. split.
+        * exact X1.
+        * intros _ Hd _. unfold dying in Hd. rewrite Hv in Hd. discriminate.
+        * intros _ _ _ _. split; [exact Hmk | reflexivity].
+        * exact X4.
+        * exact X5.
         * intros _. split; [congruence|]. split; congruence.
       + unfold m'. rewrite (inD_enter_out _ _ _ Hout). eapply ObjXp_sd; [|exact HX]. reflexivity.
     - intros h c t Hl. apply Hloc in Hl. destruct (sv_loc _ _ _ _ _ HI _ _ _ Hl) as (xt & Hxt & Hbt & Hct & Hm).
@@ -110,6 +114,7 @@ Section EnterDead.
     - reflexivity.
     - exact (fr_wp _ _ _ _ _ F).
     - intros o Ho. apply (fr_dead _ _ _ _ _ F). rewrite inD_strip in *. apply inD_enter_mono, Ho.
+    - intros Hc. discriminate Hc.
     - intros o y Hy. rewrite <- Hgs in Hy. destruct (fr_obj _ _ _ _ _ F o y Hy) as (y' & Hy' & OF).
       exists y'. split; [exact Hy'|].
       assert (Hback : inD (strip m') o = true -> o ∉ L -> inD (strip (enter L m)) o = true -> inD (strip m) o = true).
@@ -120,6 +125,7 @@ Section EnterDead.
         intros Hi. apply Hback; [exact Hi | | apply D5, Hi].
         intros Hin. destruct (HL o Hin) as (_ & x & Hx & Hnv).
         rewrite Hgs, get_strip, Hx in Hy. cbn in Hy. injection Hy as <-. rewrite norm_vst in Hv. contradiction.
+      + intros Hi Hex Hv. apply (of_dead _ _ _ _ _ _ _ OF); auto. rewrite inD_strip in *. apply inD_enter_mono, Hi.
       + intros Hex Hb Hp.
         assert (Hp' : protected E (strip (enter L m)) o y).
         { destruct Hp as [Hp|[_ Hp]]; [left; exact Hp | discriminate Hp]. }
